@@ -337,6 +337,17 @@ REWIRED_CORPUS = (
 ).split()
 
 
+# circuits whose optimal gamma exceeds the built-in default limit 1024 of OptimizationSettings (the demo class of seeded change
+# C08-r3-2): (nq, gates, W, (gate_lo, wire_lo))
+LARGE_CIRCUITS = [
+    (3, [("swap", 0, 2), ("swap", 0, 1), ("swap", 1, 2), ("cx", 1, 0), ("cx", 0, 1)], 1, (True, True)),       # 7*7*7*3*3 = 3087
+    (4, [("swap", 0, 1), ("swap", 3, 1), ("swap", 3, 0), ("swap", 2, 0), ("cx", 0, 1)], 1, (True, True)),     # 7^4 * 3 = 7203
+    (3, [("swap", 0, 1), ("swap", 1, 2), ("swap", 0, 2), ("cx", 1, 2), ("cx", 2, 0)], 2, (False, True)),      # seven wire cuts
+    (4, [("swap", 0, 2), ("iswap", 2, 1), ("swap", 2, 3), ("iswap", 2, 3), ("swap", 3, 0)], 1, (True, False)),  # 7^5 = 16807
+]
+LARGE_GAMMAS = [2000, 4096, 30870, 10 ** 6, 10.0 ** 9, 2.0 ** 60, 1e18]
+
+
 def _decode_rewired(item):
     body, W = item.split(":")
     ops = [dict(name={"c": "cx", "s": "swap"}[body[k]], qs=[int(body[k + 1]), int(body[k + 2])]) for k in range(0, len(body), 3)]
@@ -478,6 +489,38 @@ def generate(rng, tier, outdir):
     w.contract("exhaustive stream: every cut-kind combination meets every max_gamma",
                all(sched.get((j, mg), 0) > 0 for j in range(3) for mg in MAX_GAMMAS))
 
+    # ---- limits far ABOVE the built-in default 1024, optimum above 1024: 5-6 gates that (nearly) all have to be cut ----
+    # (public find_cuts entry point; an unrestricted request must report the minimum as reached whatever the size of the limit)
+    for nq, gl, W, lo in LARGE_CIRCUITS:
+        ops = [dict(name=n, qs=[a, b]) for n, a, b in gl]
+        for mg in (30870, 10.0 ** 9):
+            emit("large", dict(nq=nq, ops=ops, W=W, gate_lo=lo[0], wire_lo=lo[1], max_gamma=mg, max_backjumps=None, seeds=[0, None]))
+    n_large = 24 if quick else 400
+    kept = 0
+    while kept < n_large:
+        nq = int(rng.integers(3, 5))
+        n2q = int(rng.integers(5, 7))
+        ops = []
+        for _ in range(n2q):
+            a, b = [int(x) for x in rng.permutation(nq)[:2]]
+            ops.append(dict(name=str(rng.choice(["swap", "iswap", "swap", "cx"])), qs=[a, b]))
+        W = 1 if rng.random() < 0.6 else 2
+        lo = (True, True) if W == 1 and rng.random() < 0.6 else LO[int(rng.integers(0, 3))]
+        if W == 1 and not lo[0]:
+            lo = (True, False)              # W = 1 without gate cuts admits no solution at all
+        mg = LARGE_GAMMAS[int(rng.integers(0, len(LARGE_GAMMAS)))]
+        s0 = int(rng.integers(0, 1000))
+        case = emit("large", dict(nq=nq, ops=ops, W=W, gate_lo=lo[0], wire_lo=lo[1], max_gamma=mg, max_backjumps=None, seeds=[s0, None]))
+        if case is None:
+            continue
+        kept += 1
+        w.count("large.max_gamma", mg)
+        w.count("large.W", W)
+        opt = (case.get("oracle") or {}).get("optimum")
+        w.count("large.optimum", "undecided" if opt is None else ("above 1024" if Fraction(opt) > 1024 else "at most 1024"))
+        if opt is not None and Fraction(opt) > 1024:
+            w.count("large.optimum_above_default_and_below_limit", Fraction(opt) <= Fraction(mg))
+
     # ---- limits below the optimum on purpose: small circuits with max_gamma in {1, 2} (the F3 trigger, found afresh) ----
     pool34 = [c for g in (3, 4) for c in small_circuits(g)]
     for k in range(150 if quick else 1500):
@@ -521,14 +564,21 @@ def generate(rng, tier, outdir):
         w.count("random.cut_kinds", f"gate={gl},wire={wl}")
 
     # ---- malformed stream ----
-    n_mal = 16 if quick else 120
+    n_mal = 20 if quick else 150
     for k in range(n_mal):
         nq = int(rng.integers(2, 5))
         ops = rand_ops(rng, nq, int(rng.integers(1, 4)), ["cx", "swap"], p_idle=0.0, p_barrier=0.0, p_1q=0.2)
         inp = dict(nq=nq, ops=ops, W=int(rng.integers(1, nq + 1)), gate_lo=True, wire_lo=True, max_gamma=1024, max_backjumps=None,
                    seeds=[int(rng.integers(0, 100))])
-        mode = k % 4
-        if mode == 0:
+        mode = k % 5
+        if mode == 4:
+            # a three-qubit gate: "must contain only single and two-qubit gates" (refusal theorem c08_wide_gate_no_result)
+            nq = max(nq, 3)
+            inp["nq"] = nq
+            qs3 = [int(x) for x in rng.permutation(nq)[:3]]
+            inp["ops"] = list(ops) + [dict(name="ccx", qs=qs3)] + rand_ops(rng, nq, 1, ["cx"], p_idle=0.0, p_barrier=0.0, p_1q=0.0)
+            inp["W"] = int(rng.integers(1, nq + 1))
+        elif mode == 0:
             inp["max_gamma"] = 0.5
         elif mode == 1:
             inp["max_backjumps"] = -1
@@ -537,7 +587,7 @@ def generate(rng, tier, outdir):
             inp["W"] = 1
         else:
             inp["W"] = 0
-        w.count("malformed.mode", ["max_gamma<1", "max_backjumps<0", "no cut kind, W=1", "W=0"][mode])
+        w.count("malformed.mode", ["max_gamma<1", "max_backjumps<0", "no cut kind, W=1", "W=0", "three-qubit gate"][mode])
         emit("malformed", inp, nontrivial=True)
 
     return w.finish(
@@ -547,12 +597,14 @@ def generate(rng, tier, outdir):
              "(2) bounded-exhaustive: every circuit up to qubit relabelling on <=4 qubits with <=%s two-qubit gates from {cx: gamma 3, swap: gamma 7}"
              "%s, every W in 1..n (quick tier, 3 gates: one W per circuit, rotating) and every cut-kind combination, max_gamma/max_backjumps cycling through %s / %s so that every cut-kind combination "
              "meets every limit, 2 seeds (1 seed for 4 gates and for 3 gates in the quick tier); searches beyond the model-evaluation budget are judged by the oracle only; "
+             "(2a) limits far above the built-in default 1024: 4 fixed circuits with optimal gamma 3087..16807 and random circuits on 3-4 qubits with 5-6 gates "
+             "from {cx, swap, iswap}, W in {1,2}, max_gamma in %s, no backjump limit, 2 seeds incl. None, through the public find_cuts; "
              "(2b) random circuits of that space with 3-4 gates, W < n, max_gamma in {1,2} (limits below the optimum on purpose); "
              "(3) random circuits on 2..6 qubits with 1..7 two-qubit gates (idle qubits, arbitrary first use, one-qubit gates; half of them also "
              "with partial/full barriers, opaque 2-qubit non-Gate instructions, cz/iswap (equal gammas) and rzz(0) of gamma 1; W occasionally n+1), max_gamma in %s "
-             "(limits below the optimum included), max_backjumps in %s, 3 seeds incl. None; (4) malformed: invalid settings, no cut kind, W=0. "
+             "(limits below the optimum included), max_backjumps in %s, 3 seeds incl. None; (4) malformed: invalid settings, no cut kind, W=0, a three-qubit gate. "
              "Compared EXACTLY per seed with the model fed the recorded queue tape: sampling_overhead and minimum_reached (or the refusal). "
              "non-trivial = at least one cut made." % (
                  len(REWIRED_CORPUS), gmax_full, " plus a random sample of %d circuits with 4 gates" % n_sample if n_sample else "",
-                 MAX_GAMMAS, BACKJUMPS, MAX_GAMMAS, BACKJUMPS),
+                 MAX_GAMMAS, BACKJUMPS, LARGE_GAMMAS, MAX_GAMMAS, BACKJUMPS),
         extra=dict(extra=dict(strict=True)))
